@@ -88,8 +88,8 @@ def generate(rng, tier='quick', stack=None, focus='general', **kw):
 
   # calls
   n_calls = rng.randint(3, 40 if not big else 90)
-  methods = {'sim': ['echo', 'echo', 'echo', 'poke', 'swap', 'risky', 'risky', 'guard'],
-             'derived': ['echo', 'relay', 'relay', 'poke', 'swap', 'risky', 'relay', 'guard'],
+  methods = {'sim': ['echo', 'echo', 'echo', 'poke', 'swap', 'risky', 'risky', 'guard', 'multi'],
+             'derived': ['echo', 'relay', 'relay', 'poke', 'swap', 'risky', 'relay', 'guard', 'multi'],
              'hello': ['hi']}[scn['iface']]
   # a third of the scenarios are "late-reply heavy": short timeouts, replies
   # that arrive shortly after them, new calls arriving in between
@@ -132,11 +132,13 @@ def generate(rng, tier='quick', stack=None, focus='general', **kw):
         svc['kind'] = 'appexc'
       elif kk < 0.24 and m in ('risky', 'guard'):
         svc['kind'] = 'declared'
+      elif kk < 0.30 and m == 'multi':
+        svc['kind'] = rng.choice(['declared', 'declared2', 'declared2'])
       elif kk < 0.30 and faults_on:
         svc['kind'] = rng.choice(['close', 'reset', 'garbage'] + (['half'] if stack == 'thrift' else ['nack', 'rerror', 'rerr', 'bad_rerr']))
       elif kk < 0.34 and stack == 'mux':
         svc['kind'] = rng.choice(['nack', 'rerror', 'rerr', 'bad_rerr'])
-      elif kk < 0.37 and m in ('echo', 'relay'):
+      elif kk < 0.37 and m in ('echo', 'relay', 'multi'):
         svc['kind'] = rng.choice(['empty', 'empty', 'missing'])
     if stack == 'mux' and rng.random() < 0.3:
       svc['rctx'] = True
